@@ -235,6 +235,8 @@ struct BbHarness : Harness {
                 unsigned char one = 0x5a; unsigned char out1 = 0;
                 if (byte_buffer_add(&t, &one, 1) != -ENOMEM) c.fail("result.null", "adding to a nulled buffer did not fail with -ENOMEM");
                 if (byte_buffer_consume(&t, &out1, 1) != -ENODATA) c.fail("result.null", "consuming from a nulled buffer did not fail with -ENODATA");
+                (void)byte_buffer_rewind(&t);   // whatever it answers, it has nothing to move and no memory to touch
+                if (t.data != nullptr || t.size != 0 || t.used != 0 || t.offset != 0) c.fail("fields.null", "rewinding a nulled buffer left data %s size=%zu used=%zu offset=%zu", t.data ? "set" : "null", t.size, t.used, t.offset);
                 check("nullbuf", true, before, bs, bu, bo);
             } else if (op == "badset") {
                 int kind = (int)(o.geti("kind") & 7);
